@@ -425,6 +425,8 @@ func (rc *roundCheck) run() {
 		cur, present := rc.state0[k]
 		broken := false
 		lastDeleted := ""
+		deletedVals := map[string]bool{}
+		beforeUpdate, sawDeleted, recreated := "", false, false
 		laneLast := map[int]int{}
 		for _, me := range evs {
 			m := me.r.Msg
@@ -453,6 +455,10 @@ func (rc *roundCheck) run() {
 					rc.fail("payload:NEW:old-or-deleted-not-empty", fmt.Sprintf("key %s: NEW event carries OldTreasure/DeletedTreasure", k), viewOf(me.r))
 				}
 				cur, present = mval{Val: valOf(m.GetTreasure())}, true
+				beforeUpdate = ""
+				if sawDeleted {
+					recreated = true
+				}
 			case hydrapb.Status_UPDATED:
 				if !present {
 					rc.fail("order:UPDATED-for-absent-key:"+me.cap.ex.Op.K+":"+rc.mode(), fmt.Sprintf("key %s: UPDATED event (%s) although by the preceding events the key does not exist", k, valOf(m.GetTreasure())), rc.dumpWith(me.r))
@@ -461,18 +467,19 @@ func (rc *roundCheck) run() {
 				}
 				old := valOf(m.GetOldTreasure())
 				if old != cur.Val {
-					how := "other"
+					how := "other:" + rc.mode()
 					switch {
 					case old == valOf(m.GetTreasure()):
 						how = "shows-new-value"
 					case old == "":
 						how = "empty"
 					}
-					rc.fail("payload:UPDATED:old-value:"+how+":"+me.cap.ex.Op.K, fmt.Sprintf("key %s: UPDATED event of %s carries OldTreasure=%s, the value before the change was %s (new %s)", k, me.cap.ex.label(), old, cur.Val, valOf(m.GetTreasure())), viewOf(me.r))
+					rc.fail("payload:UPDATED:old-value:"+me.cap.ex.Op.K+":"+how, fmt.Sprintf("key %s: UPDATED event of %s carries OldTreasure=%s, the value before the change was %s (new %s)", k, me.cap.ex.label(), old, cur.Val, valOf(m.GetTreasure())), viewOf(me.r))
 				}
 				if !emptyTreasure(m.GetDeletedTreasure()) {
 					rc.fail("payload:UPDATED:deleted-not-empty", fmt.Sprintf("key %s: UPDATED event carries DeletedTreasure", k), viewOf(me.r))
 				}
+				beforeUpdate = cur.Val
 				cur.Val = valOf(m.GetTreasure())
 			case hydrapb.Status_DELETED:
 				x := valOf(m.GetDeletedTreasure())
@@ -486,7 +493,15 @@ func (rc *roundCheck) run() {
 					broken = true
 					continue
 				}
-				if x != cur.Val {
+				if x != cur.Val && deletedVals[x] {
+					rc.fail("duplicate:DELETED:earlier-removed-record-reported-again:"+me.cap.ex.Op.K+":"+rc.mode(), fmt.Sprintf("key %s: DELETED event carries %s, a value whose removal was already reported in this round; by the preceding events the key now held %s", k, x, cur.Val), rc.dumpKey(k))
+				} else if x != cur.Val && beforeUpdate != "" && x == beforeUpdate {
+					how := "plain"
+					if recreated {
+						how = "key-removed-and-re-created-in-the-round"
+					}
+					rc.fail("payload:DELETED:value-is-the-one-before-the-last-update:"+how+":"+me.cap.ex.Op.K+":"+rc.mode(), fmt.Sprintf("key %s: DELETED event carries %s, the value the key held before the UPDATED event that announced %s: the announced update is not what the swamp held", k, x, cur.Val), rc.dumpKey(k))
+				} else if x != cur.Val {
 					rc.fail("payload:DELETED:value-is-not-the-removed-one:"+me.cap.ex.Op.K+":"+rc.mode(), fmt.Sprintf("key %s: DELETED event carries %s, by the preceding events the key held %s", k, x, cur.Val), rc.dumpKey(k))
 				}
 				if !emptyTreasure(m.GetTreasure()) || !emptyTreasure(m.GetOldTreasure()) {
@@ -494,6 +509,9 @@ func (rc *roundCheck) run() {
 				}
 				present = false
 				lastDeleted = x
+				deletedVals[x] = true
+				sawDeleted = true
+				beforeUpdate = ""
 			}
 			if m.GetStatus() != hydrapb.Status_DELETED {
 				lastDeleted = ""
